@@ -394,6 +394,22 @@ def _walk_step_ok(r, body, acc='w', iv='i'):
 
 # ---- R5 -----------------------------------------------------------------------------------------------------------------------
 def consult(ctx, p):
+    # contains(key) answers whether the loaded book has records for the key
+    from rules.norm import Norm as _Nc
+    cf = p.fn(PB + 'contains')
+    ctx.analysed(cf)
+    rets = [n for n in cf.all_nodes() if n['k'] == 'ReturnStmt' and kids(n)]
+    if len(rets) != 1:
+        raise AnalysisBroken('C19: contains() has %d returns' % len(rets))
+    a = _Nc(cf).atom(kids(rets[0])[0])
+    yes = (('ne', '_hashmap.end()', '_hashmap.find(key)'), ('ge', '_hashmap.count(key)', 1), ('truthy', '_hashmap.count(key)', True),
+           ('truthy', '_hashmap.contains(key)', True))
+    no = (('eq', '_hashmap.end()', '_hashmap.find(key)'), ('in', '_hashmap.count(key)', frozenset({0})), ('truthy', '_hashmap.count(key)', False),
+          ('truthy', '_hashmap.contains(key)', False))
+    if a not in yes and a not in no:
+        raise AnalysisBroken('C19: contains() answers `%s`, which the rule does not know' % (a,))
+    ctx.ob('C19.R5.contains', 'contains', a in yes, 'contains(key) is true exactly when the book holds records under the key (%s)' % (a,),
+           site=cf.loc(rets[0]))
     f = p.fn(E + 'start_searching')
     ctx.analysed(f)
     kd = decl(f, 'key')
